@@ -178,7 +178,7 @@ Proof.
 Qed.
 
 (** ** Messages *)
-Lemma call_inv s id cons t r f n rest : QInv s -> QInv (fst (call s id cons t r f n rest)).
+Lemma call_inv s id cons t r f n np rest : QInv s -> QInv (fst (call s id cons t r f n np rest)).
 Proof.
   intros Q. unfold call.
   destruct ((t <=? 0) || (max_timeout <? t) || (f <? 0)) eqn:E1; [exact Q|].
@@ -299,7 +299,7 @@ Proof.
   { destruct (get id (ctxs s)) as [c|] eqn:Hg; [eauto|]. exfalso. apply (s_ctx s Q id); [right; congruence|exact Hg]. }
   destruct (s_wf s Q _ _ Hg) as [[Hw1 Hw2] (Hm1 & Hm2 & Hm3)].
   assert (forall st, wf (mkC st true (c_counter c) (c_timeout c) (c_repeated c) (c_freq c) (c_total c) (c_consumer c)
-                            (c_reqs c) (c_resps c) (c_module c) (c_nprov c) (c_thr c) (c_bthr c) (c_outs c) (c_badseed c))) as Hwfd.
+                            (c_reqs c) (c_resps c) (c_module c) (c_nprov c) (c_thr c) (c_bthr c) 0 false)) as Hwfd.
   { intros st. split; [split; simpl; auto|]. unfold wfm. simpl. split; [exact Hm1|]. split; [exact Hm2|].
     intros Hmod. destruct (Hm3 Hmod) as [Hr1 _]. split; [exact Hr1|discriminate]. }
   unfold expire_one, get_ctx. rewrite Hg. simpl c_state.
@@ -720,7 +720,7 @@ Definition end_block_old (ferr : list Z) (s : state) (res : list (Z * nbres)) : 
 Theorem old_handler_leaves_stale_entry :
   exists s, QInv s /\ ~ QInv (end_block_old [1] s []) /\ end_block_old [] s [] = end_block s [].
 Proof.
-  exists (fst (step (init 1) (Call 1 0 2 false 0 0 Ok))). split; [apply step_inv; apply QInv_init|]. split; [|reflexivity].
+  exists (fst (step (init 1) (Call 1 0 2 false 0 0 1 Ok))). split; [apply step_inv; apply QInv_init|]. split; [|reflexivity].
   intros Q. pose proof (qk_future _ _ _ (s_new _ Q) 1 1) as H. vm_compute in H.
   apply H; [left; reflexivity|reflexivity].
 Qed.
